@@ -128,6 +128,8 @@ def search(ctx):
         if gen.nondegenerate(s): seen.add(gen.seg_key(s))
         if len(samples) < 3: samples.append({'family': fam, 'segment': gen.seg_json(s)})
         f = check_segment(s)
+        if not f and rng.random() < 0.3:
+            f = gen.freshness(rng, s, {'bounds': lambda x: x.bounds(), 'findExtremes': lambda x: x.findExtremes()})
         if f: fails.append({'class': 'C02-segment', 'what': f[0], 'input': {'segment': gen.seg_json(s)}, 'observed': f, 'expected': 'box encloses the curve (0.06% slack only for end-sliver extrema) and is tight'})
     for _ in range(ctx.n(60, 1500)):
         segs = [gen_seg(rng)[1] for _ in range(rng.randint(1, 8))]
